@@ -1018,6 +1018,38 @@ def _do_lazy(run, ev_i, ev):
             if run.violation('GLOBAL', opname, gd, f"GLOBAL: stepping lazy {opname} disturbed '{gd}'", ev_i, None):
                 return True
         out.record([ev_i, lz['k'], ni])
+        # items the client keeps: they must not change when later items are produced, and they must not share
+        # mutable state with each other (checked by scribbling on the newest one)
+        kept = lz.setdefault('kept', [])
+        for (k0, obj0, nf0) in kept:
+            if N.same(nf0, N.norm(obj0)) is not None:
+                d0 = N.same(nf0, N.norm(obj0))
+                lz['kept'] = kept = []
+                if run.violation('ALIAS', opname, 'kept-item',
+                                 f"ALIAS: item {k0} of lazy {opname}, kept by the client, changed when item {lz['k']} "
+                                 f"was produced: {d0}", ev_i, None):
+                    return True
+                break
+        if not lz['done'] and ni != ['stop'] and not N.is_exc(ni) and N.mutable_nodes(item):
+            kept.append((lz['k'], item, ni))
+            if len(kept) > 4:
+                del kept[0]
+            if len(kept) >= 2 and ev.get('act') == 'drain' and lz['k'] % 3 == 1:
+                how = world.scribble(item, 7 * lz['k'], [x[1] for x in kept[:-1]])
+                if how:
+                    out.faults['scribble'] += 1
+                    kept.pop()      # the client edited this one itself
+                    for (k0, obj0, nf0) in kept:
+                        d0 = N.same(nf0, N.norm(obj0))
+                        if d0 is not None:
+                            lz['kept'] = []
+                            if run.violation('ALIAS', opname, 'sibling-items',
+                                             f"ALIAS: editing item {lz['k']} of lazy {opname} changed item {k0} of the "
+                                             f"same result: {d0}", ev_i, None):
+                                return True
+                            break
+                    if run.check_pool(snaps, 'ALIAS', opname, ev_i):
+                        return True
         if lz['twin_items'] is not None:
             out.oracle_checks += 1
             exp = lz['twin_items'][lz['k']] if lz['k'] < len(lz['twin_items']) else ['stop']
